@@ -1060,7 +1060,7 @@ fn main() {
             total_runs, all_complete
         ));
         // ---- random / PCT
-        let total = args.cases.unwrap_or(if args.thorough { 40000 } else { 2500 });
+        let total = args.cases.unwrap_or(if args.thorough { 30000 } else { 2500 });
         let mut forest = gen_forest(&mut rng, 6);
         for i in 0..total {
             if rep.violations.len() >= 6 {
